@@ -56,8 +56,15 @@ def run_cases(mod, cases, driver, stats):
     """examine cases; returns (findings, disagreements)"""
     findings, pending = [], []
     for case in cases:
+        rec = None
         try:
-            res = mod.examine(case)
+            if getattr(mod, "TRACE_BUILDER", False):
+                # every @builder call the check makes on a real query is also run through the Lean model of the method
+                from harness import trace
+                with trace.recording() as rec:
+                    res = mod.examine(case)
+            else:
+                res = mod.examine(case)
         except HarnessError:
             raise
         except Exception as e:
@@ -71,6 +78,10 @@ def run_cases(mod, cases, driver, stats):
             else:
                 raise HarnessError("examine crashed on %r:\n%s" % (case.get("recipe", case), traceback.format_exc()))
         stats["evaluations"] += 1
+        if rec is not None and stats.get("bsteps", 0) < stats.get("bstep_cap", 4000):
+            extra = rec.requests(stats["dist"])
+            stats["bsteps"] = stats.get("bsteps", 0) + len(extra)
+            res.requests = list(res.requests) + extra
         for t in res.tags:
             stats["dist"][t] = stats["dist"].get(t, 0) + 1
         if res.skipped:
@@ -92,6 +103,14 @@ def run_cases(mod, cases, driver, stats):
         for (req, expected, label, case), got in zip(pending, answers):
             if "bad" in got:
                 raise HarnessError("driver rejected a request (%s): %s" % (label, got["bad"]))
+            if req.get("op") == "bstep":
+                # `_select_star_tables` is a set: compare as sorted lists; the generic comparison applies
+                if "star_tables" in got:
+                    got["star_tables"].sort(key=lambda x: json.dumps(x, sort_keys=True))
+                if expected != got:
+                    disagreements.append({"label": label, "case": {k: v for k, v in case.items() if not k.startswith("_obj")},
+                                          "implementation": expected, "model": got, "call": req.get("calls")})
+                continue
             if not mod.same(expected, got) if hasattr(mod, "same") else expected != got:
                 disagreements.append({"label": label, "case": {k: v for k, v in case.items() if not k.startswith("_obj")},
                                       "implementation": expected, "model": got})
